@@ -239,6 +239,9 @@ def gen_history(cfg, ref, rng):
         if r < 0.55:
             if s > 0 and rng.random() < 0.6:
                 at = rng.randrange(0, ops_per_save + 2)  # inside the first save after the resume
+            elif s == 0 and rng.random() < 0.8 and ref.get('first_save_done_at') is not None:
+                # after the first completed save, so that there is a checkpoint to resume from
+                at = rng.randrange(min(ref['first_save_done_at'], ops_total - 1), ops_total)
             else:
                 at = rng.randrange(0, ops_total)
             tear = rng.choice([None, rng.random(), rng.random()])
@@ -511,7 +514,9 @@ def run_config(item, ctx):
     world._pre_bytes = pre
     ref_results = out['results']
     ref = {'ops': out['ops_in_segment'], 'n_saves': sum(1 for s in world.saves if s['segment'] >= 0 and s['completed']),
-           'delivery_points': out['delivery_points'], 'clock_reads': out['clock_reads']}
+           'delivery_points': out['delivery_points'], 'clock_reads': out['clock_reads'],
+           'first_save_done_at': next((sv['marker'] for sv in world.saves if sv['segment'] >= 0 and sv['completed']),
+                                      None)}
     stats['fs_ops'] += ref['ops']
     stats['sim_seconds'] += world.clock.now - 1.0e9
     for k, v in world.probes.items():
@@ -659,12 +664,12 @@ def fresh_interpreter_digests(seed, tier, idxs, hashseed):
     return json.loads(out.stdout.strip().splitlines()[-1])
 
 
-def digests_only(seed, tier, idxs):
+def digests_only(seed, tier, idxs, family=None):
     core.quiet_tenpy()
     np.seterr(all='ignore')
     out = []
     for idx in idxs:
-        cfg = W.gen_config(core.derive_seed(seed, PROP, idx), tier)
+        cfg = W.gen_config(core.derive_seed(seed, PROP, idx), tier, family=family)
         world, o, _ = reference_run(cfg)
         out.append([idx] + list(run_digests(world)))
     print(json.dumps(out))
@@ -688,7 +693,7 @@ def main(argv=None):
     if args.replay:
         return replay_file(args.replay)
     if args.digests:
-        return digests_only(seed, tier, json.loads(args.digests))
+        return digests_only(seed, tier, json.loads(args.digests), args.family)
     t0 = time.time()
     print(f'C18 tier={tier} VERIF_SEED={seed} PYTHONHASHSEED={os.environ.get("PYTHONHASHSEED")}', flush=True)
     n_cfg = args.configs or N_CONFIGS[tier]
@@ -738,6 +743,8 @@ def main(argv=None):
                     if part:
                         env = dict(os.environ, VERIF_HASHSEED=str(hs), VERIF_SEED=str(seed))
                         cmd = [os.path.join(core.VERIF, 'check'), PROP, '--tier', tier, '--digests', json.dumps(part)]
+                        if args.family:
+                            cmd += ['--family', args.family]
                         procs.append(subprocess.Popen(cmd, cwd=core.VERIF, env=env, stdout=subprocess.PIPE,
                                                       stderr=subprocess.PIPE, text=True))
                 for p in procs:
